@@ -197,6 +197,59 @@ def behav(g, kind, d, e):
     return True
 '''
 
+PRED_CODE = '''
+from adaptix import loader, dumper
+from adaptix._internal.provider.loc_stack_filtering import LocStack, create_loc_stack_checker
+from adaptix._internal.provider.location import TypeHintLoc
+def _row(p):
+    # predicate p against every request spelling: True / False, or the class of the creation error
+    try:
+        ch = create_loc_stack_checker(p)
+    except Exception as e:
+        return ("creation", type(e).__name__)
+    out = []
+    for g2, ts in GROUPS.items():
+        for t in ts:
+            try: out.append(bool(ch.check_loc_stack(None, LocStack(TypeHintLoc(type=t)))))
+            except Exception as e: out.append(type(e).__name__)
+    return tuple(out)
+def _facade(p, t):
+    # the same question through the public API: does loader(p, marker) / dumper(p, marker) serve a request for t ?
+    try:
+        r = Retort(recipe=[loader(p, lambda d: "MARK"), dumper(p, lambda d: "MARK")])
+    except Exception as e:
+        return ("creation", type(e).__name__)
+    res = []
+    for get in (r.get_loader, r.get_dumper):
+        try: res.append(get(t)(None) == "MARK")
+        except Exception as e: res.append(False)
+    return tuple(res)
+def pred_rows(g):
+    return [_row(p) for p in GROUPS[g]]
+def chk_pred_spelling(g, i):
+    rows = pred_rows(g)
+    # the spelling of the PREDICATE does not matter -- except that an unsubscripted generic is the documented wildcard predicate ("matches any
+    # parametrisation", C10) and is therefore compared with the other unsubscripted spellings only
+    bare = [not typing.get_args(p) for p in GROUPS[g]]
+    ref = next(j for j in range(len(bare)) if bare[j] == bare[i]) if g.endswith("_bare") or g.startswith("gen_") else 0
+    if rows[i] != rows[ref]: return False
+    if rows[i][0] != "creation":
+        k = 0
+        for g2, ts in GROUPS.items():                            # nor does the spelling of the REQUEST
+            if len(set(rows[i][k:k + len(ts)])) != 1: return False
+            k += len(ts)
+    ts = GROUPS[g]
+    return _facade(ts[i], ts[0]) == _facade(ts[0], ts[0]) == _facade(ts[0], ts[i]) and (_facade(ts[0], ts[0])[0] == "creation" or _facade(ts[i], ts[-1]) == (True, True))
+def nat_pred_spelling():
+    ev, bad = 0, []
+    for g in GROUPS:
+        for i in range(len(GROUPS[g])):
+            ev += 1
+            if not chk_pred_spelling(g, i): bad.append({"g": repr(g), "i": str(i)})
+    return {"status": "REFUTED" if bad else "CONFIRMED", "cexs": bad[:5], "evaluations": ev,
+            "note": "labelled enumeration (no data dimension): predicate spelling x request spelling match matrix"}
+'''
+
 
 def build(tier, seed):
     quick = tier == "quick"
@@ -230,6 +283,9 @@ def chk_lit_full_pool(sa, sb, sc, sd):
     mf.nat("congruence", NAT_CODE, timeout=120, family="rewrite congruence (labelled enumeration)",
            bounds="39 groups of equivalent spellings (union reorder/nest/duplicate/|, Optional, aliases vs builtin generics, bare generics, "
                   "literal merge/split, Literal[None]); equal+hash-equal+idempotent inside a group, unequal across groups")
+    mf.nat("pred_spelling", PRED_CODE, timeout=300, family="equivalent spellings are equivalent predicates (labelled enumeration)",
+           bounds="every spelling of the 39 groups as the predicate of loader()/dumper() against every spelling as the requested type: the match matrix "
+                  "depends on neither spelling (checker level), and the marker provider is selected through Retort.get_loader/get_dumper (facade level)")
     mb = Module("c15_behaviour").pre(SETUP).pre(FAMILY_SETUP).pre(BEHAV_SETUP)
     mb.ob("builds", "x: int", "return not BUILD_ERRORS", timeout=20, family="behavioural equivalence", bounds="loader creation for every spelling")
     groups = ["opt_int", "int_str", "int_str_none", "list_int", "list_str", "dict_str_int", "tuple_var_int", "tuple_int_str", "seq_int",
@@ -244,4 +300,4 @@ def chk_lit_full_pool(sa, sb, sc, sd):
     return Plan("C15", [m, mf, mb],
                 assumptions=["groups of equivalent spellings are equivalent by construction (typing semantics)"],
                 bounds={"literal pool": str(k), "rewrite family": "39 groups"},
-                outside=["type terms outside the family grammar", "predicates built from the hints (covered under C10)"])
+                outside=["type terms outside the family grammar"])
